@@ -67,21 +67,23 @@ theorem finish_nobody (cfg : Cfg) (ty : PType) (p1 : Parser) (H : HDict) (B pkt 
     · exact .inl h
     · exact .inr (.inl (hty.trans h)))]
   refine ⟨_, rfl, rfl, ?_, ?_, ?_, rfl, hchq'⟩
-  · exact lineEq_of_sameLine hsl
+  · exact (lineEq_of_sameLine hsl : LineEq p1 q)
   · show q.headers = _; rw [hhd, hh]; rfl
   · show q.body = _; rw [hsl.2.2.2.2.2.2.2.2.2.2.1, hb]
 
 /-- **Content-Length framing**: no chunked transfer coding, at least one `content-length`, all of them
     reading as `len(body) > 0`; the payload is `body ++ tail`. -/
-theorem finish_cl (cfg : Cfg) (ty : PType) (p1 : Parser) (H : HDict) (body tail pkt : Bytes)
+theorem finish_cl (cfg : Cfg) (ty : PType) (p1 : Parser) (H : HDict) (body tail pkt B : Bytes)
     (hparse : parse cfg (init ty) pkt = match foldHdrs p1 H with
       | .error e => .error e
-      | .ok q => bodyPhase cfg (pkt.length + 6) q (body ++ tail))
+      | .ok q => bodyPhase cfg (pkt.length + 6) q B)
+    (hBeq : B = body ++ tail)
     (hp1 : FreshLine p1) (hte : H.any isTEChunked = false)
     (hcl : ∀ e ∈ H, isCL e = true → pyInt 10 e.2 = some (Int.ofNat body.length))
     (hex : ∃ e ∈ H, isCL e = true) (hne : body ≠ []) :
     ∃ r, parse cfg (init ty) pkt = .ok r ∧ r.state = .complete ∧ LineEq p1 r ∧ r.headers = hdrsOf H ∧
       r.body = some body ∧ r.buffer = (if tail.isEmpty then none else some tail) ∧ r.isChunked = false := by
+  subst hBeq
   obtain ⟨hce, hch, hh, hb, hck, hbf⟩ := hp1
   obtain ⟨q, hq⟩ := foldHdrs_ok H (clValuesOK_of hcl) p1
   obtain ⟨hsl, hhd, hchq⟩ := foldHdrs_spec H hq
@@ -109,20 +111,22 @@ theorem finish_cl (cfg : Cfg) (ty : PType) (p1 : Parser) (H : HDict) (body tail 
   have e6 : pkt.length + 6 = (pkt.length + 4) + 2 := rfl
   rw [e6, bodyPhase_cl cfg _ q body tail clv hchq' hceq hbq hhdr hint hne]
   refine ⟨_, rfl, rfl, ?_, ?_, rfl, rfl, hchq'⟩
-  · exact lineEq_of_sameLine hsl
+  · exact (lineEq_of_sameLine hsl : LineEq p1 q)
   · show q.headers = _; rw [hhd, hh]; rfl
 
 /-- **chunked framing**: some header is `Transfer-Encoding: chunked` (case-insensitively), every
     `content-length` present is an integer literal (it is ignored); the payload is a valid chunked
     stream followed by `tail`. -/
 theorem finish_chunked (cfg : Cfg) (ty : PType) (p1 : Parser) (H : HDict) (s : Px.Chunk.ChunkedStream)
-    (tail pkt : Bytes)
+    (tail pkt B : Bytes)
     (hparse : parse cfg (init ty) pkt = match foldHdrs p1 H with
       | .error e => .error e
-      | .ok q => bodyPhase cfg (pkt.length + 6) q (s.render ++ tail))
+      | .ok q => bodyPhase cfg (pkt.length + 6) q B)
+    (hBeq : B = s.render ++ tail)
     (hp1 : FreshLine p1) (hte : H.any isTEChunked = true) (hcl : clValuesOK H) (hv : s.Valid) :
     ∃ r, parse cfg (init ty) pkt = .ok r ∧ r.state = .complete ∧ LineEq p1 r ∧ r.headers = hdrsOf H ∧
       r.body = some s.decoded ∧ r.buffer = (if tail.isEmpty then none else some tail) ∧ r.isChunked = true := by
+  subst hBeq
   obtain ⟨hce, hch, hh, hb, hck, hbf⟩ := hp1
   obtain ⟨q, hq⟩ := foldHdrs_ok H hcl p1
   obtain ⟨hsl, hhd, hchq⟩ := foldHdrs_spec H hq
@@ -133,7 +137,171 @@ theorem finish_chunked (cfg : Cfg) (ty : PType) (p1 : Parser) (H : HDict) (s : P
   have e6 : pkt.length + 6 = (pkt.length + 4) + 2 := rfl
   rw [e6, bodyPhase_chunked cfg _ q s tail hchq' hckq hv]
   refine ⟨_, rfl, rfl, ?_, ?_, rfl, rfl, hchq'⟩
-  · exact lineEq_of_sameLine hsl
+  · exact (lineEq_of_sameLine hsl : LineEq p1 q)
   · show q.headers = _; rw [hhd, hh]; rfl
+
+/-! ### the builders as `start-line CRLF header-block CRLF payload` -/
+
+theorem bn_Content_Length : b "Content-Length" = nCL := by rw [b_Content_Length]; rfl
+theorem bn_Content_Type : b "Content-Type" = nCT := by rw [b_Content_Type]; rfl
+theorem bn_User_Agent : b "User-Agent" = nUA := by rw [b_User_Agent]; rfl
+theorem bn_Connection : b "Connection" = nConn := by rw [b_Connection]; rfl
+theorem bn_close : b "close" = vClose := by rw [b_close]; rfl
+theorem bn_transfer_encoding : b "transfer-encoding" = kTE := by rw [b_transfer_encoding]; rfl
+theorem bn_user_agent : b "user-agent" = kUA := by rw [b_user_agent]; rfl
+theorem bn_content_length : b "content-length" = kCL := by rw [b_content_length]; rfl
+
+/-- `build_http_pkt`'s `Connection: close` -/
+def pktHeaders (H : HDict) (cc : Bool) : HDict := if cc then dSet H nConn vClose else H
+
+theorem buildPkt_eq (line : List Bytes) (H : HDict) (body : Option Bytes) (cc : Bool) :
+    buildPkt line H body cc =
+      join [SP] line ++ CRLF ++ (renderHdrs (pktHeaders H cc) ++ CRLF ++ body.getD []) := by
+  unfold buildPkt pktHeaders renderHdrs
+  rw [bn_Connection, bn_close]
+  cases body <;> simp [List.append_assoc]
+
+theorem join_three (m u v : Bytes) : join [SP] [m, u, v] = m ++ SP :: (u ++ SP :: v) := by simp [join]
+theorem join_two (v c : Bytes) : join [SP] [v, c] = v ++ SP :: c := by simp [join]
+
+/-- Python truthiness of an optional bytes body -/
+def bodyTruthy (body : Option Bytes) : Bool := match body with | some x => !x.isEmpty | none => false
+
+/-- does the dict contain this header name, compared case-insensitively? -/
+def hasKey (k : Bytes) (hs : HDict) : Bool := hs.any (fun e => lower e.1 == k)
+
+/-- `build_http_request`, stage 1: `Content-Type` when `content_type` is given -/
+def reqH1 (ct : Option Bytes) (hs : HDict) : HDict :=
+  match ct with | some c => dSet hs nCT c | none => hs
+
+/-- stage 2: `Content-Length` when the body is truthy and no `transfer-encoding` key is present -/
+def reqH2 (ct : Option Bytes) (hs : HDict) (body : Option Bytes) : HDict :=
+  if bodyTruthy body && !hasKey kTE (reqH1 ct hs) then
+    dSet (reqH1 ct hs) nCL (natToDec (body.getD []).length)
+  else reqH1 ct hs
+
+/-- stage 3: `User-Agent` unless a `user-agent` key is present or `no_ua` -/
+def reqH3 (ua : Bytes) (ct : Option Bytes) (hs : HDict) (body : Option Bytes) (noUa : Bool) : HDict :=
+  if !hasKey kUA (reqH1 ct hs) && !noUa then dSet (reqH2 ct hs body) nUA ua else reqH2 ct hs body
+
+/-- the header list `build_http_request` sends, in order (stage 4: `Connection: close`) -/
+def reqHeaders (ua : Bytes) (ct : Option Bytes) (hs : HDict) (body : Option Bytes) (cc noUa : Bool) : HDict :=
+  pktHeaders (reqH3 ua ct hs body noUa) cc
+
+theorem buildRequest_eq (ua m u v : Bytes) (ct : Option Bytes) (hs : HDict) (body : Option Bytes)
+    (cc noUa : Bool) :
+    buildRequest ua m u v ct hs body cc noUa =
+      m ++ SP :: (u ++ SP :: v) ++ CRLF ++ (renderHdrs (reqHeaders ua ct hs body cc noUa) ++ CRLF ++ body.getD []) := by
+  unfold buildRequest
+  rw [buildPkt_eq, join_three, bn_Content_Type, bn_Content_Length, bn_User_Agent, bn_transfer_encoding,
+    bn_user_agent]
+  rfl
+
+/-- the header list `build_http_response` sends, in order -/
+def resHeaders (hs : HDict) (body : Option Bytes) (cc noCl : Bool) : HDict :=
+  let h1 := if !hasKey kTE hs && !noCl then
+      dSet hs nCL (if bodyTruthy body then natToDec (body.getD []).length else [48])
+    else hs
+  pktHeaders h1 cc
+
+/-- the status line `build_http_response` sends -/
+def statusLine (status : Int) (version : Bytes) (reason : Option Bytes) : Bytes :=
+  match reason with
+  | some r => if r.isEmpty then version ++ SP :: intToDec status else version ++ SP :: (intToDec status ++ SP :: r)
+  | none => version ++ SP :: intToDec status
+
+theorem buildResponse_eq (status : Int) (version : Bytes) (reason : Option Bytes) (hs : HDict)
+    (body : Option Bytes) (cc noCl : Bool) :
+    buildResponse status version reason hs body cc noCl =
+      statusLine status version reason ++ CRLF ++
+        (renderHdrs (resHeaders hs body cc noCl) ++ CRLF ++ body.getD []) := by
+  unfold buildResponse
+  rw [buildPkt_eq, bn_Content_Length, bn_transfer_encoding, b_0]
+  cases reason with
+  | none => simp only [statusLine, List.append_nil, join_two]; rfl
+  | some r =>
+    by_cases hr : r.isEmpty = true
+    · simp only [statusLine, hr, if_true, List.append_nil, join_two]; rfl
+    · simp only [statusLine, hr, if_false, Bool.false_eq_true]
+      show join [SP] [version, intToDec status, r] ++ CRLF ++ _ = _
+      rw [join_three]; rfl
+
+/-! ### membership in the builders' header lists -/
+
+theorem mem_pktHeaders {H : HDict} {cc : Bool} {e : Bytes × Bytes} (he : e ∈ pktHeaders H cc) :
+    e ∈ H ∨ e = (nConn, vClose) := by
+  unfold pktHeaders at he
+  split at he
+  · rcases mem_dSet he with h | h
+    · exact .inr h
+    · exact .inl h.1
+  · exact .inl he
+
+theorem mem_reqH1 {ct : Option Bytes} {hs : HDict} {e : Bytes × Bytes} (he : e ∈ reqH1 ct hs) :
+    e ∈ hs ∨ (∃ c, ct = some c ∧ e = (nCT, c)) := by
+  unfold reqH1 at he
+  cases ct with
+  | none => exact .inl he
+  | some c =>
+    rcases mem_dSet he with h | h
+    · exact .inr ⟨c, rfl, h⟩
+    · exact .inl h.1
+
+theorem mem_reqH2 {ct : Option Bytes} {hs : HDict} {body : Option Bytes} {e : Bytes × Bytes}
+    (he : e ∈ reqH2 ct hs body) :
+    e ∈ reqH1 ct hs ∨ (bodyTruthy body = true ∧ hasKey kTE (reqH1 ct hs) = false ∧
+      e = (nCL, natToDec (body.getD []).length)) := by
+  unfold reqH2 at he
+  split at he
+  · rename_i hc
+    simp only [Bool.and_eq_true, Bool.not_eq_true'] at hc
+    rcases mem_dSet he with h | h
+    · exact .inr ⟨hc.1, hc.2, h⟩
+    · exact .inl h.1
+  · exact .inl he
+
+theorem mem_reqH3 {ua : Bytes} {ct : Option Bytes} {hs : HDict} {body : Option Bytes} {noUa : Bool}
+    {e : Bytes × Bytes} (he : e ∈ reqH3 ua ct hs body noUa) :
+    e ∈ reqH2 ct hs body ∨ (noUa = false ∧ hasKey kUA (reqH1 ct hs) = false ∧ e = (nUA, ua)) := by
+  unfold reqH3 at he
+  split at he
+  · rename_i hc
+    simp only [Bool.and_eq_true, Bool.not_eq_true'] at hc
+    rcases mem_dSet he with h | h
+    · exact .inr ⟨hc.2, hc.1, h⟩
+    · exact .inl h.1
+  · exact .inl he
+
+theorem mem_reqHeaders {ua : Bytes} {ct : Option Bytes} {hs : HDict} {body : Option Bytes} {cc noUa : Bool}
+    {e : Bytes × Bytes} (he : e ∈ reqHeaders ua ct hs body cc noUa) :
+    e ∈ hs ∨ (∃ c, ct = some c ∧ e = (nCT, c)) ∨
+      (bodyTruthy body = true ∧ hasKey kTE (reqH1 ct hs) = false ∧ e = (nCL, natToDec (body.getD []).length)) ∨
+      e = (nUA, ua) ∨ e = (nConn, vClose) := by
+  unfold reqHeaders at he
+  rcases mem_pktHeaders he with he | he
+  · rcases mem_reqH3 he with he | he
+    · rcases mem_reqH2 he with he | he
+      · rcases mem_reqH1 he with he | he
+        · exact .inl he
+        · exact .inr (.inl he)
+      · exact .inr (.inr (.inl he))
+    · exact .inr (.inr (.inr (.inl he.2.2)))
+  · exact .inr (.inr (.inr (.inr he)))
+
+theorem mem_resHeaders {hs : HDict} {body : Option Bytes} {cc noCl : Bool} {e : Bytes × Bytes}
+    (he : e ∈ resHeaders hs body cc noCl) :
+    e ∈ hs ∨ (noCl = false ∧ hasKey kTE hs = false ∧
+        e = (nCL, if bodyTruthy body then natToDec (body.getD []).length else [48])) ∨
+      e = (nConn, vClose) := by
+  unfold resHeaders at he
+  rcases mem_pktHeaders he with he | he
+  case inr => exact .inr (.inr he)
+  split at he
+  · rename_i hc
+    simp only [Bool.and_eq_true, Bool.not_eq_true'] at hc
+    rcases mem_dSet he with h | h
+    · exact .inr (.inl ⟨hc.2, hc.1, h⟩)
+    · exact .inl h.1
+  · exact .inl he
 
 end Px.Codec
